@@ -351,11 +351,22 @@ func threeWayWith(ls loaderSet, c *kit.Case, rt reflect.Type, label string, tx t
 // keyCase runs oracle 2 on one document: the formats whose result changes when only the letter
 // case of struct-field keys changes.
 func keyCase(c *kit.Case, salt uint64, rs *kit.Rand, rt reflect.Type, label string, d0 *node, tx0 texts, res0 [3]outcome) (bad []string, kind string, wit map[string]any) {
+	return keyCaseX(c, salt, rs, rt, label, d0, tx0, res0, false)
+}
+
+// keyCaseX: asciiOnly is the ablation run that attributes a failure - the same re-spelling, but
+// every key that contains a non-ASCII letter keeps the spelling of the canonical document (not
+// counted as a variant).
+func keyCaseX(c *kit.Case, salt uint64, rs *kit.Rand, rt reflect.Type, label string, d0 *node, tx0 texts, res0 [3]outcome, asciiOnly bool) (bad []string, kind string, wit map[string]any) {
 	// the new spelling of a key is a function of (salt, key), so that the document without the
 	// mismatch can be re-spelled in exactly the same way
 	d1 := d0.clone(func(e ent) string {
 		if e.perm {
-			return permuteCase(kit.NewRand(salt).Split(e.key), e.key)
+			v := permuteCase(kit.NewRand(salt).Split(e.key), e.key)
+			if asciiOnly && !isASCII(e.key) {
+				v = e.key
+			}
+			return v
 		}
 		return e.key
 	})
@@ -363,9 +374,38 @@ func keyCase(c *kit.Case, salt uint64, rs *kit.Rand, rt reflect.Type, label stri
 	if tx1[0] == tx0[0] || !selfCheck(c, d1, tx1) {
 		return nil, "", nil
 	}
+	nonASCII, noCapital := caseDelta(d0, d1)
+	if nonASCII > 0 {
+		// the reference decoder's opinion on "the same document with keys in another case": where
+		// encoding/json accepts both spellings and decodes different values, the re-spelling is not a
+		// case variant in its eyes and nothing is asserted (not expected to happen for the runes used)
+		a := load(rt, func(v any) error { return json.Unmarshal([]byte(tx0[0]), v) })
+		b := load(rt, func(v any) error { return json.Unmarshal([]byte(tx1[0]), v) })
+		switch {
+		case !a.ok() || !b.ok():
+			c.Obs("keycase_nonascii_variants_encoding_json_rejects_the_document", 1)
+		case reflect.DeepEqual(a.val.Interface(), b.val.Interface()):
+			c.Obs("keycase_nonascii_variants_confirmed_by_encoding_json", 1)
+		default:
+			c.Obs("keycase_nonascii_variants_not_folded_by_encoding_json", 1)
+			return nil, "", nil
+		}
+	}
 	res1 := loadAll(rt, tx1)
 	c.Obs("conf_loads", 3)
-	c.Obs("keycase_variants", 1)
+	if !asciiOnly {
+		c.Obs("keycase_variants", 1)
+		if nonASCII > 0 {
+			c.Obs("keycase_variants_nonascii", 1)
+			c.Obs("keycase_nonascii_keys_recased", int64(nonASCII))
+			if noCapital > 0 {
+				c.Obs("keycase_variants_nonascii_without_ascii_capital", 1)
+			}
+			if res0[0].ok() {
+				c.Obs("keycase_variants_nonascii_accepted_documents", 1)
+			}
+		}
+	}
 	if reportPanics(c, rt, label, tx1, res1) {
 		return nil, "", nil
 	}
@@ -378,7 +418,7 @@ func keyCase(c *kit.Case, salt uint64, rs *kit.Rand, rt reflect.Type, label stri
 	if len(bad) == 0 {
 		return nil, "", nil
 	}
-	return bad, kind, map[string]any{"type": typeText(rt), "formats": bad,
+	return bad, kind, map[string]any{"type": typeText(rt), "formats": bad, "nonascii_keys_recased": nonASCII,
 		"canonical_documents": tx0.witness(), "permuted_documents": tx1.witness(),
 		"canonical_json_result": res0[0].describe(), "permuted_json_result": res1[0].describe(),
 		"canonical_yaml_result": res0[1].describe(), "permuted_yaml_result": res1[1].describe(),
@@ -449,7 +489,9 @@ func mapKeyEqualsFieldName(n *node, t *tdesc) bool {
 // spellP: the probability per number.
 func runPair(c *kit.Case, t *tdesc, plain bool, scratch string, idx int, spellFrac, spellP float64) {
 	r := c.R
-	g := &dgen{r: r}
+	g := &dgen{r: r, uni: t.uni}
+	stdUni = t.uni
+	defer func() { stdUni = false }()
 	d0 := g.value(t, 0)
 	label := "well-typed"
 	mutated := r.Chance(0.55)
@@ -496,6 +538,12 @@ func runPair(c *kit.Case, t *tdesc, plain bool, scratch string, idx int, spellFr
 		if selfCheck(c, d0, tx0) {
 			res0, comparable, dis := threeWay(c, t.rt, label, tx0, true)
 			c.Obs("pairs_compared", 1)
+			if t.uni {
+				c.Obs("pairs_compared_nonascii_keys", 1)
+				if comparable && res0[0].ok() {
+					c.Obs("pairs_nonascii_keys_all_accept", 1)
+				}
+			}
 			if d0.spelled() {
 				c.Obs("pairs_compared_with_respelled_numbers", 1)
 				countSpellings(c, d0, tx0)
@@ -541,13 +589,14 @@ func runPair(c *kit.Case, t *tdesc, plain bool, scratch string, idx int, spellFr
 			if comparable && d0.hasPermKeys() {
 				salt := r.Uint64()
 				if bad, kind, wit := keyCase(c, salt, rs, t.rt, label, d0, tx0, res0); len(bad) > 0 {
-					lab, dd := label, d0
+					lab, dd, ddTx, ddRes := label, d0, tx0, res0
 					if base != nil && base.hasPermKeys() {
 						txb := renderAll(base, rs)
 						if selfCheck(c, base, txb) {
 							if resb, ok, _ := threeWay(c, t.rt, "well-typed", txb, false); ok {
 								if bb, kb, wb := keyCase(c, salt, rs, t.rt, "well-typed", base, txb, resb); len(bb) > 0 {
 									lab, dd, bad, kind, wit = "well-typed", base, bb, kb, wb
+									ddTx, ddRes = txb, resb
 								}
 							}
 						}
@@ -555,6 +604,14 @@ func runPair(c *kit.Case, t *tdesc, plain bool, scratch string, idx int, spellFr
 					// the class of the failing input is "keys re-spelled"; which mismatch the document
 					// carries elsewhere is in the witness (label), not in the key
 					key := "C17/keycase-" + kind + "/" + strings.Join(bad, "+")
+					if t.uni && dd.hasNonASCIIPermKeys() {
+						// the same re-spelling with the keys that contain non-ASCII letters left as they are:
+						// if that does not change the result, those keys are the ones that are not matched
+						if ab, _, _ := keyCaseX(c, salt, rs, t.rt, lab, dd, ddTx, ddRes, true); len(ab) == 0 {
+							key = "C17/keycase-" + kind + "/keys-with-nonascii-letters/" + strings.Join(bad, "+")
+							wit["attribution"] = "re-casing only the all-ASCII keys in the same way does not change the result"
+						}
+					}
 					if mapKeyEqualsFieldName(dd, t) {
 						// one class whatever else the document contains
 						key = "C17/keycase/map-key-equals-a-field-name"
@@ -566,6 +623,9 @@ func runPair(c *kit.Case, t *tdesc, plain bool, scratch string, idx int, spellFr
 			// ---- oracle 3 (file part): conf.Load on a file == the bytes loader, with and without UseEnv
 			if comparable && idx%5 == 0 {
 				fileOracle(c, t.rt, label, tx0, res0, scratch)
+				if t.uni {
+					c.Obs("file_oracle_documents_with_nonascii_keys", 1)
+				}
 			}
 			// ---- repeat after scribble: the result must not depend on what was loaded before
 			if comparable && idx%5 == 2 {
@@ -621,6 +681,10 @@ func fileOracle(c *kit.Case, rt reflect.Type, label string, tx texts, want [3]ou
 	}
 }
 
+// stdUni: the type of the pair being judged has non-ASCII keys (set by runPair / runStdPair for
+// the duration of one pair; only used for counting).
+var stdUni bool
+
 // stdDiff decodes one input with both decoders; diff is the class of the first difference when
 // both accept and the values are not DeepEqual.
 func stdDiff(c *kit.Case, rt reflect.Type, label, text string, count bool) (diff string, wit map[string]any) {
@@ -635,6 +699,9 @@ func stdDiff(c *kit.Case, rt reflect.Type, label, text string, count bool) (diff
 	case a.ok() && b.ok():
 		if count {
 			c.Obs("stdjson_both_accept", 1)
+			if stdUni {
+				c.Obs("stdjson_nonascii_keys_both_accept", 1)
+			}
 		}
 		if !reflect.DeepEqual(a.val.Interface(), b.val.Interface()) {
 			return diffClass(a.val, b.val), map[string]any{"type": typeText(rt), "document": text,
@@ -722,7 +789,9 @@ func rawNumber(r *kit.Rand, t *tdesc) (string, string) {
 
 func runStdPair(c *kit.Case, t *tdesc) {
 	r := c.R
-	g := &dgen{r: r}
+	g := &dgen{r: r, uni: t.uni}
+	stdUni = t.uni
+	defer func() { stdUni = false }()
 	d := g.value(t, 0)
 	label := "well-typed"
 	baseText := ""
@@ -779,6 +848,12 @@ func runStdPair(c *kit.Case, t *tdesc) {
 		}
 	}
 	c.Obs("stdjson_inputs", 1)
+	if t.uni {
+		c.Obs("stdjson_inputs_nonascii_keys", 1)
+		if label == "key-case-variant" {
+			c.Obs("stdjson_inputs_nonascii_key_case_variant", 1)
+		}
+	}
 	if c.Index < 2 {
 		c.Sample("stdjson", 2, map[string]any{"type": typeText(t.rt), "label": label, "document": text})
 	}
@@ -994,6 +1069,16 @@ func runEnv(c *kit.Case, scratch string) {
 
 // ---------------------------------------------------------------- test entry
 
+// uniFrac: every seventh case of the random-type families builds its type with key names that
+// contain non-ASCII letters (per key with this probability); the other cases draw nothing extra
+// from the random stream.
+func uniFrac(c *kit.Case) float64 {
+	if c.Index%7 == 3 {
+		return 0.6
+	}
+	return 0
+}
+
 func TestVerifC17(t *testing.T) {
 	logx.Disable()
 	root := os.Getenv("VERIF_SCRATCH_DIR")
@@ -1010,7 +1095,7 @@ func TestVerifC17(t *testing.T) {
 
 	// random StructOf types with go-zero tag options (optional/default/options/range), durations
 	kit.Run(t, "C17", "gen", kit.N(3500, 90000), func(c *kit.Case) {
-		g := &tgen{r: c.R}
+		g := &tgen{r: c.R, uni: uniFrac(c)}
 		td := descOf(g.structT(c.R.Range(0, 3), 1))
 		for i := 0; i < docsPerType; i++ {
 			runPair(c, td, false, scratch, i, 0.25, 0.5)
@@ -1018,7 +1103,7 @@ func TestVerifC17(t *testing.T) {
 	})
 	// random StructOf types with plain json name tags: three-format oracle + encoding/json oracle
 	kit.Run(t, "C17", "plain", kit.N(2500, 60000), func(c *kit.Case) {
-		g := &tgen{r: c.R, plain: true}
+		g := &tgen{r: c.R, plain: true, uni: uniFrac(c)}
 		td := descOf(g.structT(c.R.Range(0, 3), 1))
 		for i := 0; i < docsPerType; i++ {
 			runPair(c, td, true, scratch, i, 0.25, 0.5)
@@ -1033,7 +1118,7 @@ func TestVerifC17(t *testing.T) {
 	})
 	// encoding/json family: nulls, number spellings, key-case variants, top-level slices
 	kit.Run(t, "C17", "stdjson", kit.N(2000, 50000), func(c *kit.Case) {
-		g := &tgen{r: c.R, plain: true}
+		g := &tgen{r: c.R, plain: true, uni: uniFrac(c)}
 		rt := g.structT(c.R.Range(0, 3), 1)
 		if c.R.Chance(0.15) {
 			rt = reflect.SliceOf(g.typ(c.R.Range(0, 2)))
@@ -1069,5 +1154,17 @@ func TestVerifC17(t *testing.T) {
 	kit.Run(t, "C17", "env-forms", kit.N(800, 15000), func(c *kit.Case) { runEnvForms(c, scratch) })
 	// types with conflicting keys, embedded maps / scalars, unsupported field kinds
 	kit.Run(t, "C17", "conflict", kit.N(330, 6600), func(c *kit.Case) { runConflict(c, scratch) })
+	// hand-written types with non-ASCII tags, embedded structs and untagged non-ASCII field names
+	kit.Run(t, "C17", "uni-fixed", kit.N(160, 4000), func(c *kit.Case) {
+		td := descOf(fixedFamilyU[c.Index%len(fixedFamilyU)])
+		for i := 0; i < docsPerType; i++ {
+			runPair(c, td, false, scratch, i, 0.25, 0.5)
+		}
+	})
+	// the env family on a type with non-ASCII tags and non-ASCII map data keys (expected values
+	// computed by the harness)
+	kit.Run(t, "C17", "uni-env", kit.N(400, 8000), func(c *kit.Case) { runEnvU(c, scratch) })
+	// keys with runes that have no one-to-one case mapping: the formats agree, nothing panics
+	kit.Run(t, "C17", "uni-special", kit.N(150, 3000), runSpecial)
 	kit.End()
 }
